@@ -3,7 +3,7 @@
 (HEAD): patch applies, baseline tests pass with it, demo fails with it, demo passes without it.
 Writes /verif/seeded/<id>-m<k>/{patch.diff, demo.rs, meta.json}."""
 import os, re, subprocess, json, sys, shutil
-W = '/tmp/seedcheck'
+W = os.environ.get('SEED_W', '/tmp/seedcheck')
 def sh(cmd, cwd=W, timeout=1800):
     p = subprocess.run(cmd, shell=True, cwd=cwd, capture_output=True, text=True, timeout=timeout)
     return p.returncode, (p.stdout + p.stderr)
